@@ -63,6 +63,10 @@ CLAIMS = {
    technique="runtime monitoring: metamorphic comparison of resolution results under 13 presentations per input (repeats, permuted / rotated / reversed state sets, shuffled sets and auth lists, duplicated auth events), deprecated entry points under permutation, cross-process agreement on shared inputs, structural well-formedness monitors, and topological-order monitors for all ordering functions",
    text="Each simulated history is resolved 14 times through ResolveConflictsNew and 11 more times through the deprecated entry points; any difference in the sorted event-ID set is a violation. Inputs of v3+ rooms generated from a shard-independent PRNG stream are resolved in all 8 child processes and the driver compares the results across processes. Results are checked for one-event-per-key, supplied-events-only, agreed keys kept and equal-sets-returned. ReverseTopologicalOrdering (by auth and by prev events), its headered variant and LineariseStateResponse are checked to return a permutation of the distinct inputs with every event after its referenced ancestors present.",
    note=TB + "no reference model needed; v1 resolver driven as documented."),
+ "C12": dict(level="fault_enumeration", design="§4 C12",
+   technique="runtime monitoring with fault enumeration: instrumented key database and fetcher stubs record every request while a sequential key-ring model (written from the statement) predicts each result; the single-request product of database states x fetcher behaviours x timestamps x validity rule x message shapes is enumerated completely, batches are sampled; CheckKeys, DirectKeyFetcher and PerspectiveKeyFetcher are driven over scripted key clients",
+   text="Every (database state, fetcher-1 behaviour, fetcher-2 behaviour, timestamp boundary, strict/lenient, message shape) combination for one request is executed against the real KeyRing (exhaustive_subspace), plus thousands of batches with independent per-key source states. Monitors: result vector length and order, each result vs the model, a model-independent soundness check (success needs a consulted source holding a verifying key valid at that time), fetchers asked only about keys the database lacks or holds past validity, fetched records handed to StoreKeys unchanged. Key responses: CheckKeys with a controlled now and one fault each; the direct / notary-fallback / perspective fetch paths with signed, unsigned, mis-named, wrongly-notarised objects.",
+   note=TB + "validity boundaries >= 1 h from the wall clock; abstains where 'all keys found' per request vs per key matters, on colliding fetcher extras, and on the wall-clock freshness of key responses inside the fetchers (they pass the epoch as now)."),
 }
 NOT_YET = "check not built yet (work in progress; see DESIGN.md §4 for the planned monitor)"
 
